@@ -359,9 +359,85 @@ def h_timeout(kind, n_children=1):
     return ['timeout', 'dropped']
 
 
+def h_loop_addresses():
+    """the REAL main_loop of a daemon that listens on TWO addresses (one connection per address): IKE_SA_INIT requests arrive on either address in
+    an arbitrary order, with a status query at an arbitrary point in between; each creates a responder IKE_SA for the address pair it arrived
+    on, the reply leaves from the arrival address, and the status report lists exactly the table"""
+    import copy
+    import json as _json
+    from symx import core
+    from ipaddress import ip_address
+    eng = core.engine()
+    cf, ic, ik, m = MODS['configuration'], MODS['ikesacontroller'], MODS['ikesa'], MODS['message']
+    S = ik.IkeSa.State
+    world.ENV.reset()
+    IP3, IP4 = ip_address('192.168.0.3'), ip_address('192.168.0.4')
+    d = world.conf_dict()
+    d2 = copy.deepcopy(d)
+    d['alice2'], d['bob2'] = copy.deepcopy(d['alice']), copy.deepcopy(d['bob'])
+    d['alice2'].update(my_addr=str(IP4), peer_addr=str(IP3))
+    d['bob2'].update(my_addr=str(IP3), peer_addr=str(IP4))
+    conf = cf.Configuration([world.IP1, world.IP2, IP3, IP4], d)
+    E = world.Endpoint('D', None)
+    with E:
+        ctl = ic.IkeSaController(my_addrs=[world.IP2, IP3], configuration=conf)
+    E.obj = ctl
+    TS = m.TrafficSelector
+    from ipaddress import ip_network
+
+    def init_req(src, dst):
+        a = ik.IkeSa(is_initiator=True, peer_spi=b'\0' * 8, configuration=conf.get_ike_configuration(src, dst), my_addr=src, peer_addr=dst)
+        ep = world.Endpoint('I', a)
+        return a, ep.call(a.process_acquire, TS.from_network(ip_network(f'{src}/32'), 8765, TS.IpProtocol.TCP), TS.from_network(ip_network(f'{dst}/32'), 23, TS.IpProtocol.TCP), 1)
+    order = []
+    for i in range(3):
+        c = eng.sym_int(f'arrives_on{i}', 0, 1)
+        order.append(eng.concretize(c, 0, 1) if not isinstance(c, int) else c)
+    q = eng.sym_int('status_query_before', 0, 3)
+    qpos = eng.concretize(q, 0, 3) if not isinstance(q, int) else q
+    events, sent = [], []
+    for i, o in enumerate(order):
+        if qpos == i:
+            events.append({'kind': 'control'})
+        src, dst = (world.IP1, world.IP2) if o == 0 else (IP4, IP3)
+        a, req = init_req(src, dst)
+        sent.append((a, src, dst))
+        events.append({'kind': 'udp', 'dst': dst, 'src': str(src), 'data': bytes(req)})
+    if qpos == 3:
+        events.append({'kind': 'control'})
+    lp = world.Loop(E)
+    try:
+        lp.run(events + [{'kind': 'tick'}])
+    except Exception as ex:      # noqa
+        return {'class': ['loop_addresses'], 'violation': f'main_loop terminated with {type(ex).__name__}: {ex}'}
+    what = f'requests arriving on {["192.168.0.2" if o == 0 else "192.168.0.3" for o in order]}, status query before event {qpos}'
+    for a, src, dst in sent:
+        mine = [e for e in ctl.ike_sas if bytes(e.peer_spi) == bytes(a.my_spi)]
+        if len(mine) != 1:
+            return {'class': ['loop_addresses'], 'violation': f'{what}: {len(mine)} IKE_SAs for the request of {src} to {dst}'}
+        e = mine[0]
+        if e.my_addr != dst or e.peer_addr != src or e.is_initiator or e.state != S.INIT_RES_SENT:
+            return {'class': ['loop_addresses'], 'violation': f'{what}: the request that arrived on {dst} from {src} created an IKE_SA for {e.my_addr} <- {e.peer_addr} '
+                                                              f'in state {e.state.name}'}
+        rep = [(s_, dst_) for s_, dst_, data in lp.outbox if bytes(data[0:8]) == bytes(a.my_spi)]
+        if rep != [(str(dst), (str(src), 500))]:
+            return {'class': ['loop_addresses'], 'violation': f'{what}: the reply to {src} -> {dst} left as {rep}'}
+    if len(ctl.ike_sas) != 3:
+        return {'class': ['loop_addresses'], 'violation': f'{what}: {len(ctl.ike_sas)} IKE_SAs in the table after 3 requests'}
+    reports = [c_.sent for c_ in lp.conns]
+    if len(reports) != 1 or len(reports[0]) != 1:
+        return {'class': ['loop_addresses'], 'violation': f'{what}: {len(reports)} status connections answered'}
+    rep = _json.loads(reports[0][0].decode())
+    n_before = sum(1 for i in range(3) if i < qpos)
+    if len(rep) != n_before:
+        return {'class': ['loop_addresses'], 'violation': f'{what}: the status report lists {len(rep)} IKE_SAs, the table held {n_before}'}
+    return ['loop_addresses', tuple(order), qpos]
+
+
 def build_instances(tier):
     inst = []
     nat = common.native_of
+    inst.append(Instance('main_loop listening on two addresses', h_loop_addresses, (), native=nat(h_loop_addresses), engine_kw={'max_ticks': 10 ** 7}))
     inst.append(Instance('late datagram after a retransmission timeout in main_loop', h_timeout, ('probe',), native=nat(h_timeout),
                          must_reach=[('dropped', lambda o: o == ['timeout', 'dropped'])]))
     for k in (2, 3):
